@@ -96,7 +96,7 @@ func (h *H) openBackend(kind string, tag string) (*backend, error) {
 	return nil, fmt.Errorf("unknown backend %s", kind)
 }
 
-var edgeHeights = []uint64{0, 1, 23, 24, 255, 256, 65535, 65536, 1<<32 - 1, 1 << 32, 1<<63 - 1}
+var edgeHeights = []uint64{0, 1, 23, 24, 255, 256, 65535, 65536, 1<<32 - 1, 1 << 32, 1<<63 - 1, 1 << 63, 1<<64 - 1}
 
 // genRec generates one block record with arbitrary (not chain-valid) content.
 func (h *H) genRec(g *Gen, i int, number uint64) *Rec {
